@@ -1,8 +1,8 @@
-\* design check, quick tier: lengths 0..4, components None, -4..4, BIG
+\* design check, quick tier: lengths 0..4, components None, -3..3, BIG (the generator goes to -4..4)
 SPECIFICATION Spec
 CONSTANTS
   MaxLen = 4
-  IdxMax = 4
+  IdxMax = 3
   MaxRhs = 3
   Wide = FALSE
   CmpLen = 3
